@@ -870,6 +870,137 @@ func runT6(p *an.Prog, r *an.Result) {
 	} else {
 		r.Bad(name, fmt.Sprintf("%d capture groups", re.MaxCap()), an.FuncPos(fn), "Scan reads the submatches of exactly three groups")
 	}
+	// which delimiter feeds which place of the pattern: the delimiter fragments are QuoteMeta(delims[k]) for
+	// k = 0, 1, 2, 3 in the order they appear, and the exclusion expression (the one fragment that is not a
+	// quoted delimiter) is built from the same delimiter as the fragment that closes the tag alternative
+	for _, c := range callsNamed(fn, "fmt.Sprintf") {
+		if _, ok := an.ConstString(c.Call.Args[0]); !ok || len(c.Call.Args) < 2 {
+			continue
+		}
+		args := map[int64]ssa.Value{}
+		if sl, ok := c.Call.Args[1].(*ssa.Slice); ok {
+			if al, ok := sl.X.(*ssa.Alloc); ok && al.Referrers() != nil {
+				for _, au := range *al.Referrers() {
+					if ia, ok := au.(*ssa.IndexAddr); ok && ia.Referrers() != nil {
+						k, _ := an.ConstInt(ia.Index)
+						for _, uu := range *ia.Referrers() {
+							if st, ok := uu.(*ssa.Store); ok && st.Addr == ssa.Value(ia) {
+								args[k] = st.Val
+							}
+						}
+					}
+				}
+			}
+		}
+		delimIndexOf := func(v ssa.Value) (int64, bool) {
+			// v is delims[k] (a load of an IndexAddr with a constant index on the parameter)
+			for _, o := range an.Origins(v, an.StepValue) {
+				if u, ok := o.(*ssa.UnOp); ok {
+					if ia, ok := u.X.(*ssa.IndexAddr); ok {
+						if _, isParam := ia.X.(*ssa.Parameter); isParam {
+							if k, ok := an.ConstInt(ia.Index); ok {
+								return k, true
+							}
+						}
+					}
+				}
+			}
+			return 0, false
+		}
+		var quoted []int64
+		var other []ssa.Value
+		for k := int64(0); k < int64(len(args)); k++ {
+			v := args[k]
+			if mi, ok := v.(*ssa.MakeInterface); ok {
+				v = mi.X
+			}
+			if qc := an.CallOf(v); qc != nil && an.CallName(qc) == "regexp.QuoteMeta" {
+				if d, ok := delimIndexOf(qc.Args[0]); ok {
+					quoted = append(quoted, d)
+					continue
+				}
+			}
+			other = append(other, v)
+		}
+		inOrder := len(quoted) == 4
+		for i, d := range quoted {
+			if d != int64(i) {
+				inOrder = false
+			}
+		}
+		if inOrder {
+			r.OK(name, "delimiter fragments are QuoteMeta(delims[0..3]) in order", c.Pos(), "object-left, object-right, tag-left, tag-right")
+		} else {
+			r.Bad(name, "delimiter fragments out of order", c.Pos(), fmt.Sprintf("the quoted delimiters appear as delims%v; the pattern needs object-left, object-right, tag-left, tag-right", quoted))
+		}
+		// the exclusion expression
+		exOK := len(other) == 1
+		if exOK {
+			exOK = false
+			seen := map[ssa.Value]bool{}
+			var visit func(v ssa.Value, depth int)
+			visit = func(v ssa.Value, depth int) {
+				if v == nil || seen[v] || depth > 12 {
+					return
+				}
+				seen[v] = true
+				if d, ok := delimIndexOf(v); ok && len(quoted) == 4 && d == quoted[3] {
+					exOK = true
+				}
+				switch x := v.(type) {
+				case *ssa.Call:
+					for _, a := range an.Args(&x.Call) {
+						visit(a, depth+1)
+					}
+				case *ssa.Phi:
+					for _, e := range x.Edges {
+						visit(e, depth+1)
+					}
+				case *ssa.Slice:
+					visit(x.X, depth+1)
+				case *ssa.Convert:
+					visit(x.X, depth+1)
+				case *ssa.MakeInterface:
+					visit(x.X, depth+1)
+				case *ssa.BinOp:
+					visit(x.X, depth+1)
+					visit(x.Y, depth+1)
+				case *ssa.UnOp:
+					visit(x.X, depth+1)
+				case *ssa.IndexAddr:
+					visit(x.X, depth+1)
+				case *ssa.Extract:
+					visit(x.Tuple, depth+1)
+				case *ssa.Next:
+					visit(x.Iter, depth+1)
+				case *ssa.Range:
+					visit(x.X, depth+1)
+				case *ssa.Alloc:
+					for _, sv := range an.Stores(x) {
+						visit(sv, depth+1)
+					}
+				case *ssa.MakeSlice:
+					visit(x.Len, depth+1)
+				}
+				// whatever is stored into its elements
+				if _, isAddr := v.(*ssa.IndexAddr); !isAddr && v.Referrers() != nil {
+					for _, u := range *v.Referrers() {
+						if ia, ok := u.(*ssa.IndexAddr); ok && ia.X == v {
+							for _, sv := range an.Stores(ia) {
+								visit(sv, depth+1)
+							}
+						}
+					}
+				}
+			}
+			visit(other[0], 0)
+		}
+		if exOK {
+			r.OK(name, "the exclusion expression is built from the tag-right delimiter", c.Pos(), "the same delims[k] as the fragment that closes the tag alternative")
+		} else {
+			r.Bad(name, "the exclusion expression is not built from the tag-right delimiter", c.Pos(), "what a tag's arguments may not contain must be derived from the delimiter that ends the tag")
+		}
+	}
 	// whitespace around contents is optional: \s* after the opening and before the closing delimiter in both alternatives
 	if strings.Count(format, `-?\s*`) >= 2 && strings.Count(format, `\s*-?`) >= 2 {
 		r.OK(name, "optional whitespace and hyphen inside both delimiters", an.FuncPos(fn), "")
@@ -1015,7 +1146,81 @@ func runT7(p *an.Prog, r *an.Result) {
 // ---------------------------------------------------------------------------
 // T8
 
+// t8Config: the configuration call hands its four strings on unchanged and in order, and does
+// nothing else (no test of them, no panic): an empty string must arrive at the scanner as such.
+func t8Config(p *an.Prog, r *an.Result) {
+	var setters []*ssa.Function
+	for _, f := range p.Funcs {
+		if f.Pkg == nil || f.Object() == nil || !f.Object().Exported() || f.Signature.Recv() == nil || an.RelPkg(f.Pkg.Pkg.Path()) != "." && an.RelPkg(f.Pkg.Pkg.Path()) != "" {
+			continue
+		}
+		ps := f.Signature.Params()
+		if ps.Len() != 4 {
+			continue
+		}
+		allStr := true
+		for i := 0; i < 4; i++ {
+			if b, ok := ps.At(i).Type().Underlying().(*types.Basic); !ok || b.Kind() != types.String {
+				allStr = false
+			}
+		}
+		if allStr {
+			setters = append(setters, f)
+		}
+	}
+	r.Counts["delimiter setters"] = len(setters)
+	for _, f := range setters {
+		name := an.FuncName(f)
+		// the stored list
+		var stored *ssa.Store
+		an.EachInstr(f, func(in ssa.Instruction) {
+			if st, ok := in.(*ssa.Store); ok {
+				if sl, ok := st.Val.Type().Underlying().(*types.Slice); ok {
+					if b, ok := sl.Elem().Underlying().(*types.Basic); ok && b.Kind() == types.String {
+						if _, isField := st.Addr.(*ssa.FieldAddr); isField {
+							stored = st
+						}
+					}
+				}
+			}
+		})
+		if stored == nil {
+			r.Bad(name, "delimiters not stored", an.FuncPos(f), "the four strings must be stored in the configuration")
+			continue
+		}
+		elems := map[int64]ssa.Value{}
+		if s2, ok := stored.Val.(*ssa.Slice); ok {
+			if al, ok := s2.X.(*ssa.Alloc); ok && al.Referrers() != nil {
+				for _, au := range *al.Referrers() {
+					if ia, ok := au.(*ssa.IndexAddr); ok && ia.Referrers() != nil {
+						k, _ := an.ConstInt(ia.Index)
+						for _, uu := range *ia.Referrers() {
+							if st, ok := uu.(*ssa.Store); ok && st.Addr == ssa.Value(ia) {
+								elems[k] = st.Val
+							}
+						}
+					}
+				}
+			}
+		}
+		inOrder := len(elems) == 4
+		for k := int64(0); k < 4; k++ {
+			// parameter k+1 (after the receiver), possibly through a spilled cell
+			if an.Deref(elems[k]) != ssa.Value(f.Params[k+1]) && elems[k] != ssa.Value(f.Params[k+1]) {
+				inOrder = false
+			}
+		}
+		if inOrder {
+			r.OK(name, "stores its four arguments, unchanged and in order", stored.Pos(), "Delims = []string{p1, p2, p3, p4}")
+		} else {
+			r.Bad(name, "does not store its four arguments in order", stored.Pos(), "object-left, object-right, tag-left, tag-right must reach the scanner as given")
+		}
+	}
+	r.Floor("delimiter setters", 1)
+}
+
 func runT8(p *an.Prog, r *an.Result) {
+	t8Config(p, r)
 	fn := p.Func("parser.Scan")
 	if fn == nil {
 		r.Bad("-", "Scan not found", token.NoPos, "anchor not resolved")
@@ -1241,7 +1446,55 @@ func runT9(p *an.Prog, r *an.Result) {
 				good = false
 			}
 		}
-		// every return passes through the buffer write or an error return of Flush
+		// every return passes through the buffer write or is an error return
+		for _, in := range instrsOf(w) {
+			ret, ok := in.(*ssa.Return)
+			if !ok {
+				continue
+			}
+			res := resultsOf(ret)
+			if instrDominates(bw[0], ret) || !an.IsNilConst(res[len(res)-1]) {
+				continue
+			}
+			good = false
+			r.Bad(an.FuncName(w), "returns success without appending its argument", ret.Pos(), "a Write that reports success must have buffered b; returning early also leaves the trim flag armed for the next chunk")
+		}
+		// when the flag was set, it is cleared on every path to the buffer write
+		for _, in := range instrsOf(w) {
+			ifi, ok := in.(*ssa.If)
+			if !ok || !strings.HasSuffix(describe(p, ifi.Cond), ".trim") {
+				continue
+			}
+			clears := map[*ssa.BasicBlock]bool{}
+			for _, x := range instrsOf(w) {
+				if st, ok := x.(*ssa.Store); ok && strings.HasSuffix(describe(p, st.Addr), ".trim") {
+					if c, isC := an.ConstBool(st.Val); isC && !c {
+						clears[st.Block()] = true
+					}
+				}
+			}
+			seen := map[*ssa.BasicBlock]bool{}
+			var reach func(b *ssa.BasicBlock) bool
+			reach = func(b *ssa.BasicBlock) bool {
+				if seen[b] || clears[b] {
+					return false
+				}
+				seen[b] = true
+				if b == bw[0].Block() {
+					return true
+				}
+				for _, s := range b.Succs {
+					if reach(s) {
+						return true
+					}
+				}
+				return false
+			}
+			if reach(ifi.Block().Succs[0]) {
+				good = false
+				r.Bad(an.FuncName(w), "trim flag can survive a Write", ifi.Pos(), "a path from the flag test to the buffer write does not clear the flag: whitespace of a later chunk would be trimmed too")
+			}
+		}
 		if good {
 			r.OK(an.FuncName(w), "appends its argument, left-trimmed only when the trim flag is set", bw[0].Pos(), "")
 		} else {
@@ -1400,5 +1653,11 @@ func tokenEmission(st *ssa.Store) ssa.Instruction {
 		}
 	}
 	walk(fa.X, 0)
+	return out
+}
+
+func instrsOf(fn *ssa.Function) []ssa.Instruction {
+	var out []ssa.Instruction
+	an.EachInstr(fn, func(in ssa.Instruction) { out = append(out, in) })
 	return out
 }
